@@ -328,9 +328,12 @@ def classes(out):
     for var, value in out["assignments"]:
         asg[var] = value
     by = {}
+    untouched = {n for n in out["caller_env"] if n not in asg}
+    dropped = {what for kind, what in out["problems"] if kind == "caller-variable-dropped"}
     for kind, what in out["problems"]:
         if kind == "caller-variable-dropped":
-            k = "caller-environment-dropped"
+            # the known defect drops the WHOLE caller environment; losing some variables is something else
+            k = "caller-environment-dropped" if dropped == untouched else None
         elif kind in ("module-variable-wrong", "module-variable-missing") and asg.get(what) is not None and any(c in asg[what] for c in "'\"\\"):
             k = "module-value-with-quote-or-backslash"
         else:
@@ -345,8 +348,9 @@ def _drive(ctx, dom, h, cases, mode):
         touched = {a[0] for a in out["assignments"]}
         nontrivial = bool(out["assignments"]) and any(k not in touched for k in out["caller_env"])
         dom.case(repr((mode, case)), nontrivial=nontrivial, sample=out)
-        for klass, probs in classes(out).items():
-            ctx.fail(klass, f"child environment / argv under lmod.Environment: {probs[:4]} (caller variables {sorted(out['caller_env'])}, module output {out['lmod_output']!r})"[:500], out, domain=dom)
+        for n, (klass, probs) in enumerate(classes(out).items()):
+            what = f"child environment / argv under lmod.Environment: {probs[:4]} (caller variables {sorted(out['caller_env'])}, module output {out['lmod_output']!r})"
+            ctx.fail(klass, what[:500], out, domain=dom if n == 0 else None)  # a case counts once as failed
 
 
 def run(ctx):
